@@ -8,7 +8,7 @@ import "math/big"
 
 var (
 	// P is 2^130 - 5.
-	P     = new(big.Int).Sub(new(big.Int).Lsh(big.NewInt(1), 130), big.NewInt(5))
+	P      = new(big.Int).Sub(new(big.Int).Lsh(big.NewInt(1), 130), big.NewInt(5))
 	two128 = new(big.Int).Lsh(big.NewInt(1), 128)
 )
 
@@ -34,23 +34,66 @@ func Clamp(r []byte) []byte {
 	return c
 }
 
-// Acc returns the accumulator value in [0, 2^130-5) after processing msg under key[0:16].
-func Acc(key []byte, msg []byte) *big.Int {
-	r := leInt(Clamp(key[:16]))
-	a := new(big.Int)
+// Acc is the running accumulator of the definition: a = ((a + block) * r) mod 2^130-5
+// per block, where block = little-endian value of 1..16 message bytes plus 2^(8*len).
+type Acc struct {
+	r, a, t, blk *big.Int
+}
+
+// NewAcc starts an accumulation under r = Clamp(key[0:16]).
+func NewAcc(key []byte) *Acc {
+	return &Acc{r: leInt(Clamp(key[:16])), a: new(big.Int), t: new(big.Int), blk: new(big.Int)}
+}
+
+// Clone returns an independent copy.
+func (s *Acc) Clone() *Acc {
+	return &Acc{r: s.r, a: new(big.Int).Set(s.a), t: new(big.Int), blk: new(big.Int)}
+}
+
+// Block absorbs one block of 1..16 bytes.
+func (s *Acc) Block(b []byte) {
+	n := len(b)
+	if n < 1 || n > 16 {
+		panic("polyref: block of 1..16 bytes expected")
+	}
+	var be [17]byte // big-endian image of le(b) + 2^(8n)
+	be[16-n] = 1
+	for i := 0; i < n; i++ {
+		be[16-i] = b[i]
+	}
+	s.blk.SetBytes(be[16-n:])
+	s.t.Add(s.a, s.blk)
+	s.t.Mul(s.t, s.r)
+	s.a.Mod(s.t, P)
+}
+
+// Write absorbs msg as consecutive 16-byte blocks; a trailing short block is absorbed as
+// the final block of the message, so only the last Write of a message may have a length
+// that is not a multiple of 16.
+func (s *Acc) Write(msg []byte) {
 	for len(msg) > 0 {
 		n := 16
 		if len(msg) < n {
 			n = len(msg)
 		}
-		blk := leInt(msg[:n])
-		blk.Add(blk, new(big.Int).Lsh(big.NewInt(1), uint(8*n)))
-		a.Add(a, blk)
-		a.Mul(a, r)
-		a.Mod(a, P)
+		s.Block(msg[:n])
 		msg = msg[n:]
 	}
-	return a
+}
+
+// Value returns the accumulator in [0, 2^130-5).
+func (s *Acc) Value() *big.Int { return new(big.Int).Set(s.a) }
+
+// Tag returns (a + s) mod 2^128 as 16 little-endian bytes, s = key[16:32].
+func (s *Acc) Tag(key []byte) [16]byte {
+	v := new(big.Int).Add(s.a, leInt(key[16:32]))
+	v.Mod(v, two128)
+	var tag [16]byte
+	be := v.Bytes() // big-endian, no leading zeros
+	for i := 0; i < len(be); i++ {
+		tag[i] = be[len(be)-1-i]
+	}
+	return tag
 }
 
 // Sum is the Poly1305 tag of msg under the 32-byte one-time key (r || s).
@@ -58,13 +101,7 @@ func Sum(key []byte, msg []byte) [16]byte {
 	if len(key) != 32 {
 		panic("polyref: key must be 32 bytes")
 	}
-	a := Acc(key, msg)
-	a.Add(a, leInt(key[16:32]))
-	a.Mod(a, two128)
-	var tag [16]byte
-	be := a.Bytes() // big-endian, no leading zeros
-	for i := 0; i < len(be); i++ {
-		tag[i] = be[len(be)-1-i]
-	}
-	return tag
+	a := NewAcc(key)
+	a.Write(msg)
+	return a.Tag(key)
 }
